@@ -85,6 +85,7 @@ class NaniteFitModel:
         for attr in [
             "get_parameter_defaults",
             "model_doc",
+            "model_func",
             "model_key",
             "model_name",
             "parameter_keys",
